@@ -1,4 +1,5 @@
 import RemocModel.Table.Lemmas
+import RemocModel.Table.ConnSys
 set_option linter.unusedSimpArgs false
 
 /-!
@@ -149,3 +150,88 @@ example :
   decide
 
 end Remoc.Table
+
+/-! ## The two-endpoint system (`Table/Conn.lean`): statements over ALL interleavings -/
+
+namespace Remoc.Table.Sys
+open Remoc.Wire Remoc.Table
+
+/-- number of `OpenPort` requests in a wire -/
+def opensInFlight (w : List Msg) : Nat := (reqPorts w).length
+/-- number of answers (`PortOpened` / `Rejected`) in a wire -/
+def answersInFlight (w : List Msg) : Nat := (respPorts w).length
+/-- answers the application has decided whose event the dispatcher has not handled yet
+(`Request::accept_from` / `reject` / drop queued an event on `channel_tx`) -/
+def answersQueued (v : Side) : Nat := (ansPorts v.portQ).length
+
+/-- the credit equation for one direction -/
+def CreditEq (c v : Side) (wcv wvc : List Msg) : Prop :=
+  opensInFlight wcv + v.ep.listenQ.length + v.held.length + answersQueued v + answersInFlight wvc
+    = c.ep.clientPending ∧
+  c.ep.clientPending ≤ v.ep.cfg.cq ∧ c.permits ≤ v.ep.cfg.cq
+
+theorem creditEq_of_reqInv (c v : Side) (wcv wvc : List Msg) (h : ReqInv c v wcv wvc) : CreditEq c v wcv wvc := by
+  have hndo : v.ep.outstanding.Nodup := by
+    have := h.nodup; simp only [reqWhere] at this
+    exact (List.nodup_append.mp (List.nodup_append.mp this).1).2.1
+  have hp : (outWhere v).Perm v.ep.outstanding := (List.perm_ext_iff_of_nodup h.outNodup hndo).mpr h.outMem
+  have hl := hp.length_eq
+  have hpend := h.pend
+  have hperm := h.perm
+  have hcfg := h.cfg
+  simp only [reqWhere, outWhere, List.length_append, List.length_map, Side.permits] at hl hpend hperm
+  refine ⟨?_, ?_, ?_⟩
+  · simp only [opensInFlight, answersInFlight, answersQueued]; omega
+  · omega
+  · simp only [Side.permits]; omega
+
+/-- **Request credit invariant** (C10, all interleavings of two conforming endpoints, any
+`max_ports` and `connect_queue` per side).  In every reachable state, for each direction:
+(`OpenPort` in flight towards X) + |X.listenQ| + (requests held unanswered by X's application) +
+(answers decided but not yet handled by X's dispatcher) + (answers in flight back) equals the
+peer's `clientPending`, which never exceeds the `connect_queue` X advertised; the permits of the
+peer's credit semaphore (queued + pending requests) never exceed it either. -/
+theorem request_credit_invariant (mpA cqA mpB cqB : Nat) (ls : List (Who × Lab)) :
+    let s := run (init mpA cqA mpB cqB) ls
+    CreditEq s.a s.b s.toB s.toA ∧ CreditEq s.b s.a s.toA s.toB := by
+  intro s
+  have hi := inv1_run _ ls (inv1_init mpA cqA mpB cqB)
+  exact ⟨creditEq_of_reqInv _ _ _ _ hi.ab, creditEq_of_reqInv _ _ _ _ hi.ba⟩
+
+/-- **Every request is in exactly one place** and the requests that are somewhere are exactly the
+connecting ports of the requester: on the wire, outstanding at the listener side, or answered with
+the answer on the wire back — never two of these (no duplicate `OpenPort`, no second answer). -/
+theorem request_located_once (mpA cqA mpB cqB : Nat) (ls : List (Who × Lab)) :
+    let s := run (init mpA cqA mpB cqB) ls
+    (reqWhere s.b.ep s.toB s.toA).Nodup ∧
+    (∀ p, lookup s.a.ep.ports p = some .connecting ↔ p ∈ reqWhere s.b.ep s.toB s.toA) ∧
+    (reqWhere s.a.ep s.toA s.toB).Nodup ∧
+    (∀ p, lookup s.b.ep.ports p = some .connecting ↔ p ∈ reqWhere s.a.ep s.toA s.toB) := by
+  intro s
+  have hi := inv1_run _ ls (inv1_init mpA cqA mpB cqB)
+  exact ⟨hi.ab.nodup, hi.ab.conn, hi.ba.nodup, hi.ba.conn⟩
+
+theorem creditEq_room (c v : Side) (wcv wvc : List Msg) (h : CreditEq c v wcv wvc) :
+    opensInFlight wcv + v.ep.listenQ.length ≤ v.ep.cfg.cq := by
+  obtain ⟨h1, h2, _⟩ := h; omega
+
+/-- hence the listener queues never reach the length at which `OpenPort` is refused with
+"too many OpenPort requests" while a request is still in flight -/
+theorem listen_queue_has_room (mpA cqA mpB cqB : Nat) (ls : List (Who × Lab)) :
+    let s := run (init mpA cqA mpB cqB) ls
+    opensInFlight s.toB + s.b.ep.listenQ.length ≤ s.b.ep.cfg.cq ∧
+    opensInFlight s.toA + s.a.ep.listenQ.length ≤ s.a.ep.cfg.cq := by
+  intro s
+  have h := request_credit_invariant mpA cqA mpB cqB ls
+  exact ⟨creditEq_room _ _ _ _ h.1, creditEq_room _ _ _ _ h.2⟩
+
+/-- non-vacuity: A queues two connects (cq of B is 2), one is sent and delivered, B's application
+takes it out of the queue: one request in flight... one held, `clientPending = 2`, both permits used -/
+example :
+    let s := run (init 4 2 4 2) [(.A, .startConnect 1 true), (.A, .startConnect 2 false), (.A, .dispConn),
+      (.B, .deliver), (.B, .takeReq true), (.A, .dispConn)]
+    opensInFlight s.toB = 1 ∧ s.b.held = [1] ∧ s.a.ep.clientPending = 2 ∧ s.a.permits = 2 ∧
+    stepSide s.a s.toA (.startConnect 3 true) = none := by
+  decide
+
+end Remoc.Table.Sys
